@@ -21,3 +21,16 @@ package taskfile
 //@   requires u != nil
 //@ func getScheme
 //@   sweep                                                          [C16]
+
+// ---- C08: reading an include --------------------------------------------------------------------------
+// "optional" forgives only a Taskfile that cannot be located; an error from inside the included tree (missing
+// nested include, cycle, decode error, version mismatch) is always handed on.
+//@ ghost var recFailed bool scratch
+//@ ghost var locFailed bool scratch
+//@ func (*Reader).include$1$1
+//@   init recFailed := false
+//@   init locFailed := false
+//@   site NewNode#1 ghost locFailed := result.1 != nil
+//@   site (*Reader).include#1 ghost recFailed := result != nil
+//@   ensures recFailed ==> result != nil                                                                               [C08]
+//@   ensures locFailed && !include.Optional ==> result != nil                                                          [C08]
